@@ -42,8 +42,8 @@ func (c03) Cases(tier string, race bool) int {
 	return 100000
 }
 
-var c03keys = []string{"a", "b", "c", "d", "e1", "x-y", "Z_z", "ns:q", "doc", "element"}
-var c03strs = []string{"", "t", "hello", " pad ", "<&>\"'", "&amp;", "&lt;", "1", "true", "é世", "a]]>b", "x\ny", "<![CDATA[q]]>", "--", "</a>", `\u003c`, `a\u0026b\u003e`, "100%"}
+var c03keys = []string{"a", "b", "c", "d", "e1", "x-y", "Z_z", "ns:q", "doc", "element", "_seq", "_", "object"}
+var c03strs = []string{"", "t", "hello", " pad ", "<&>\"'", "&amp;", "&lt;", "1", "true", "é世", "a]]>b", "x\ny", "<![CDATA[q]]>", "--", "</a>", `\u003c`, `a\u0026b\u003e`, "100%", "\ufeffx", "x\ufeff", `\u2028`}
 
 func c03scalar(r *rand.Rand) interface{} {
 	switch r.Intn(7) {
